@@ -79,6 +79,29 @@ CLAIMS = {
                  "-i, -f, -v and stat() are not explored; cases the statement is silent on (an empty NDJSON line, the status of a document that is well-formed JSON but has no CEL value) are counted, not compared."),
 }
 
+PH = " Pair histories (mc/pairhist.py): every term of a small alphabet alone and after every other term in one process started from the pristine process state; the answer must be the reference answer and the answer alone; deviations are re-confirmed in fresh forks."
+ADDED = {   # sub-spaces added in round 5 (appended to the claim text and to the technique)
+    "C01": ("; explicit two-step histories of literal operations", PH),
+    "C02": ("; un-parenthesised chains of three and four operands", " Flat chains a || b || c (|| d), a && b && c (&& d) and the mixed forms over six leaves are judged as the left-nested tree the grammar gives."),
+    "C03": ("; five activations applied in sequence to one program object", " Each generated term's program object is evaluated under empty, all-bound, wrong-kind, a proper subset of the names and empty again, in that order, so a binding surviving an earlier evaluate() shows as a divergence."),
+    "C04": ("; non-finite doubles in every numeric position; activation sequences on one program", " Computed +inf / -inf / NaN stand in every position that takes a number (index, key, conversion argument, operand, zone argument)."),
+    "C06": ("; aggregates with repeated entries; explicit two-step parse histories", " Maps / messages / lists / calls that repeat a key text, field name or element must dump and re-parse to the same tree." + PH),
+    "C07": ("; explicit two-step histories of literals", PH),
+    "C08": ("; explicit two-step histories mixing well-typed and ill-typed comparisons", PH),
+    "C09": ("; alternations with an anchor in one branch; explicit two-step histories", " Every alternation over six sub-patterns in which only one branch carries ^ or $ (and anchors around groups) against every text of length <= 4." + PH),
+    "C10": ("; failing conversions as arguments of every strict position; explicit two-step histories", " Each of 19 failing conversions as the direct argument of 16 strict positions must remain an error." + PH),
+    "C12": ("; one long-lived program with all nine names declared evaluated under every configuration in turn, against a fresh program per evaluation (differential)", ""),
+    "C13": ("; arithmetic at the ends of the timestamp / duration / integer / double ranges; explicit two-step histories with the Python class in the outcome", PH),
+    "C14": ("; host functions raising subclasses of ValueError / TypeError", ""),
+    "C15": ("; both zero signs; explicit two-step conversion histories", PH),
+    "C16": ("; switch points inside lark's lazily built per-state lexer scanners (shared through the parser singleton), three preemptions", " A configuration with granularity 'codes' places a switch point on every line of lark.lexer.BasicLexer.scanner / _build_scanner with the parser already published."),
+    "C17": ("; the filter context as a stack machine: every enter / exit / evaluate sequence to length 5 (thorough 6) with <= 3 open contexts against a stack model, state compared after every event", ""),
+    "C19": ("; one representative per class of rare character (controls, format characters, non-characters, astral private-use / tag characters); values that == / hash confuse in the translation histories", ""),
+}
+for _p, (_tech, _text) in ADDED.items():
+    CLAIMS[_p]["technique"] += _tech
+    CLAIMS[_p]["text"] += _text
+
 NOT_YET = "check not built yet in this session (see DESIGN.md section 9 build order)"
 
 
